@@ -244,7 +244,38 @@ func c17ReadOnly(sh *explore.Shard) {
 	var idx int64 = 1 << 21
 	bases := c13Bases()
 	modes := c13Modes()
-	argSets := [][]string{{"--no-progress"}, {"-v", "--no-progress"}, {"--json", "--progress"}, {"-v", "--no-progress", "--names=hash", "main"}, {"--json", "--json-version=2", "--no-progress", "--include", "refs/tags"}, {"--no-progress", "--show-refs", "--branches"}}
+	// a third repository: three consecutive commits whose root trees exceed 64 kiB (read buffers)
+	{
+		r := mrepo.New()
+		lv := gen.AddLeaves(r)
+		var prev mrepo.ID
+		ids := map[string]mrepo.ID{}
+		for cidx := 0; cidx < 3; cidx++ {
+			var es []mrepo.Entry
+			for i := 0; i < 2100; i++ {
+				child := lv.BlobA
+				if i == cidx {
+					child = lv.BlobC
+				}
+				es = append(es, mrepo.Entry{Mode: 0o100644, Name: fmt.Sprintf("file-with-a-long-name-%05d", i), Child: child})
+			}
+			sub := r.AddTree([]mrepo.Entry{{Mode: 0o100644, Name: "a", Child: lv.BlobA}})
+			es = append(es, mrepo.Entry{Mode: 0o40000, Name: "d", Child: sub})
+			var ps []mrepo.ID
+			if prev != "" {
+				ps = []mrepo.ID{prev}
+			}
+			prev = r.AddCommit(mrepo.CommitSpec{Tree: r.AddTree(es), Parents: ps, Time: gen.T0 + int64(cidx)*100, Message: fmt.Sprintf("big %d\n", cidx)})
+			if cidx == 0 {
+				ids["c0"] = prev
+			}
+		}
+		r.SetRef("refs/heads/main", prev)
+		r.SetRef("refs/tags/ta", r.AddTag(mrepo.TagSpec{Target: prev, Name: "ta", Time: gen.T0, Message: "t\n"}))
+		r.Head = "ref: refs/heads/main"
+		bases = append(bases, c13Base{r, ids})
+	}
+	argSets := [][]string{{"--no-progress"}, {"-v", "--no-progress"}, {"--json", "--no-progress", "main", "ta", "main~1"}, {"--json", "--progress"}, {"-v", "--no-progress", "--names=hash", "main"}, {"--json", "--json-version=2", "--no-progress", "--include", "refs/tags"}, {"--no-progress", "--show-refs", "--branches"}}
 	for bi, b := range bases {
 		for ai, args := range argSets {
 			idx++
@@ -417,6 +448,6 @@ func c17Parent(prop, tier string) int {
 
 func init() {
 	Registry["C17"] = &Check{Level: "model_checking", Worker: c17Worker, Parent: c17Parent, QuickBudget: 90 * time.Second, ThoroughBudget: 15 * time.Minute,
-		Rule: "(part 2, deciding determinism over schedules) the real ScanRepositoryUsingGraph, CollectReferences, obj_iter.go, batch_obj_iter.go, ref_iter.go and the verbatim go-pipe pipeline/function/scanner code, mechanically rewritten from their current text so that every mutex, atomic, channel operation, select, close, context cancellation, go statement and pipe read/write is a scheduling point; threads: main, the two feeder goroutines, every pipeline stage goroutine and the model git processes; ALL schedules with at most 2 (quick; 1 for the fault bodies) / 3 (thorough) deviations from the default schedule for 3 fault-free bodies (whole records; 7-byte writes with per-record flushing; 1030 blobs with two equal maxima, bound 1) and 6 single-fault bodies; oracle: every schedule yields the same HistorySize JSON (numbers = oracle, same cited objects and descriptions), no deadlock, no panic, and with a fault an error in every schedule. (part 1, read-only) real binary + real git: 2 repositories x 6 argument vectors x 8 addressing modes: snapshot (mode, size, mtime-ns, SHA-256) of git dir, work tree, index and linked worktree identical before and after; 6 repeated runs with GOMAXPROCS 1..16 give byte-identical stdout; thorough additionally traces the run with strace -f and rejects any successful write-type system call on a path inside the repository; the git commands issued (model git log) stay within the read-only plumbing whitelist; auxiliary: 3 free-running runs per case of a -race build (a report is a violation, silence is not evidence). states = distinct observations over schedules; transitions = scheduling steps",
+		Rule: "(part 2, deciding determinism over schedules) the real ScanRepositoryUsingGraph, CollectReferences, obj_iter.go, batch_obj_iter.go, ref_iter.go and the verbatim go-pipe pipeline/function/scanner code, mechanically rewritten from their current text so that every mutex, atomic, channel operation, select, close, context cancellation, go statement and pipe read/write is a scheduling point; threads: main, the two feeder goroutines, every pipeline stage goroutine and the model git processes; ALL schedules with at most 2 (quick; 1 for the fault bodies) / 3 (thorough) deviations from the default schedule for 3 fault-free bodies (whole records; 7-byte writes with per-record flushing; 1030 blobs with two equal maxima, bound 1) and 6 single-fault bodies; oracle: every schedule yields the same HistorySize JSON (numbers = oracle, same cited objects and descriptions), no deadlock, no panic, and with a fault an error in every schedule. (part 1, read-only) real binary + real git: 3 repositories (one with root trees above 64 kiB in consecutive commits) x 7 argument vectors (one with three ROOT arguments) x 8 addressing modes: snapshot (mode, size, mtime-ns, SHA-256) of git dir, work tree, index and linked worktree identical before and after; 6 repeated runs with GOMAXPROCS 1..16 give byte-identical stdout; thorough additionally traces the run with strace -f and rejects any successful write-type system call on a path inside the repository; the git commands issued (model git log) stay within the read-only plumbing whitelist; auxiliary: 3 free-running runs per case of a -race build (a report is a violation, silence is not evidence). states = distinct observations over schedules; transitions = scheduling steps",
 		Assumptions: []string{"race-freedom is not decided by schedule enumeration (scheduling points sit at synchronisation operations); repeated free-running runs are sampling and are reported as such", "the model git processes are threads whose only interaction is through their pipes"}}
 }
